@@ -84,9 +84,10 @@ def launch_rules(ctx, fam):
                       key='gate-order', where=where(f, e.node),
                       rid='C05.R2')
             got = {k: U(run.expand(v)) for k, v in b.args.items()}
-            want = {'server': 'self', 'sid': sid_src, 'eio_sid': 'eio_sid',
-                    'data': 'data', 'namespace': "namespace or '/'",
-                    'id': 'id'}
+            ip = internal.params[1:]
+            want = dict(zip(ip, ['self', sid_src, 'eio_sid', 'data',
+                                 "namespace or '/'", 'id'])) \
+                if len(ip) == 6 else {}
             ctx.check(got == want and not b.errors, construct,
                       '%s launch binds (server, sid, eio_sid, data, '
                       'namespace, id) position by position' % kind,
@@ -122,13 +123,18 @@ def internal_dispatch(ctx, fam):
     f = m.method(S, '_handle_event_internal')
     construct = S + '._handle_event_internal'
     run = run_function(f, m)
+    ps = f.params[1:]
+    if len(ps) != 6:
+        raise AnalysisError(construct + ' signature changed')
+    _, sid_p, _, data_p, ns_p, _ = ps
     for p in run.paths:
         trig = p.calls('_trigger_event')
         for e in trig:
             a = e.expr.args
-            good = len(a) == 4 and U(a[0]) == 'data[0]' and \
-                U(a[1]) == 'namespace' and U(a[2]) == 'sid' and \
-                isinstance(a[3], ast.Starred) and U(a[3].value) == 'data[1:]'
+            good = len(a) == 4 and U(a[0]) == data_p + '[0]' and \
+                U(a[1]) == ns_p and U(a[2]) == sid_p and \
+                isinstance(a[3], ast.Starred) and \
+                U(a[3].value) == data_p + '[1:]'
             ctx.check(good, construct, 'handler dispatcher receives '
                       '(data[0], namespace, sid, *data[1:])',
                       key='dispatch-args', reason='dispatcher invoked as %s'
